@@ -249,6 +249,8 @@ impl VersionManager {
             .sync_all()
             .await?;
         #[cfg(risinglight_verif)]
+        crate::verif::point_sync("persist.tmp.dirsynced", &manifest_path.to_string_lossy());
+        #[cfg(risinglight_verif)]
         crate::verif::point_sync("persist.tmp.renamed", &manifest_path.to_string_lossy());
         manifest.reopen(&manifest_path).await?;
         Ok(epoch)
